@@ -39,7 +39,9 @@ def gen_cases(rng, tier, corr, stats):
                 stats["ops"]["incremental"] = stats["ops"].get("incremental", 0) + 1
                 stats["chunks"].append(len(parts))
             if fam != "AI":
-                corr.one("%s %s ENC %s %s %s %s" % (fam, v, hx(k), hx(n), hx(ad), hx(pt)))
+                # C++ classes: key constructor / set_key then set_nonce / set_nonce then set_key, pointer or byte_array overload
+                path = (" " + rng.choice(["ctor", "setkey", "setkeylast", "ctor BA", "setkey BA", "setkeylast BA"])) if fam == "AEC" else ""
+                corr.one("%s %s ENC %s %s %s %s%s" % (fam, v, hx(k), hx(n), hx(ad), hx(pt), path))
                 stats["ops"][fam] = stats["ops"].get(fam, 0) + 1
 
 
@@ -61,12 +63,18 @@ def gen_packet_sessions(rng, tier, corr, stats):
         for lens in ([5, 11], [rate - 1, rate + 1, 1], [1, 0, 2 * rate + 3], [rate + 3, rate - 3, 7]) + (() if tier == "quick" else ([0, 7, 0, 9], [3 * rate + 1, 2, rate])):
             k, n0 = gen.patterned(rng, klen), common.rnd_bytes(rng, 13) + b"\xff\xff" + bytes([rng.randrange(250, 256)])
             ses = ["AI 1 %s INIT %s %s" % (v, hx(n0), hx(k))]
+            base = int.from_bytes(n0, "big")
             for i, L in enumerate(lens):
                 ad, pt = common.rnd_bytes(rng, rng.choice([0, 3, rate])), common.rnd_bytes(rng, L)
+                if i and rng.random() < 0.4:
+                    # between packets: re-key keeping the running nonce (the object's own nonce field handed back as the argument)
+                    # (the nonce field is the one documented as the application's to read and update; the key field is opaque)
+                    k = gen.patterned(rng, klen); ses.append("AI 1 REINIT SELF %s" % hx(k))
+                    stats["ops"]["reinit-with-own-field"] = stats["ops"].get("reinit-with-own-field", 0) + 1
                 ses.append("AI 1 START %s" % hx(ad))
                 ses += ["AI 1 ENCB %s" % hx(c) for c in gen.split_data(pt, gen.partition(rng, L, rate))]
                 ses.append("AI 1 ENCF")
-                ni = ((int.from_bytes(n0, "big") + i) % (1 << 128)).to_bytes(16, "big")
+                ni = ((base + i) % (1 << 128)).to_bytes(16, "big")
                 ses.append("AE %s ENC %s %s %s %s" % (v, hx(k), hx(ni), hx(ad), hx(pt)))    # the same packet one-shot, to be compared by eye in a replay
             ses.append("AI 1 FREE")
             corr.session(ses, "AI-%s-ENC-packets" % v)
